@@ -14,7 +14,7 @@ EXPLANATION = (
     "the Difficulty's mods (R2); in every switch on a GameMode value each arm mentions only its own mode (R3); the "
     "sibling entries of one mode apply the same &mut Beatmap preprocessors under the same guards (R4); "
     "TryFrom<OsuPerformance> forwards difficulty/acc/misses/combo/hit results per table and try_convert_map uses "
-    "convert_ref/convert_mut with the same (mode, mods) (R5); every converter call inside the crate that takes &GameMods is handed mods that come from its caller — a parameter or Difficulty::get_mods(..) — never a constant (R6: an early conversion with default mods is final and swallows the key mods set later). Decides the code-shape clauses only; equality of the "
+    "convert_ref/convert_mut with the same (mode, mods), and every field the conversion copies verbatim is filled by setters that store the same function of their argument on both sides (same unit / normalisation) (R5); every converter call inside the crate that takes &GameMods is handed mods that come from its caller — a parameter or Difficulty::get_mods(..) — never a constant (R6: an early conversion with default mods is final and swallows the key mods set later). Decides the code-shape clauses only; equality of the "
     "numbers follows from them but is not itself computed.")
 
 BM = 'model::beatmap::Beatmap'
@@ -603,6 +603,7 @@ def r5(ctx, F):
         ctx.require(good, 'C07-R5', '%s:map' % mode, 'map_or_attrs <- MapOrAttrs::Map(converted map)', f.where(),
                     bad='%s does not store the converted map: %s' % (f.path, prov.show(m, maxdepth=4)))
     ctx.floor('C07-R5', n, 3, 'TryFrom<OsuPerformance> impls')
+    r5_same_representation(ctx, F)
     # try_convert_map: Borrowed -> convert_ref(mode, mods), Owned -> convert_mut(mode, mods)
     tcm = [f for f in F.fns if f.name == 'try_convert_map' and f.self_adt == OSU_PERF]
     if len(tcm) != 1:
@@ -674,3 +675,41 @@ def r6_conversion_mods(ctx, F):
                             bad='%s converts a map with mods `%s` of its own choosing: the conversion consumes the key mods (mania) and a converted map is final, so the mods the user '
                                 'sets afterwards are ignored — calculating on this map no longer equals calculating on the explicitly converted map' % (fn.path, prov.show(a, maxdepth=4)[:120]))
     ctx.floor('C07-R6', n, 8, 'converter calls taking mods')
+
+
+def _setter_store(F, adt, field):
+    """{setter name: normalised text of what it stores in `field`} for the public by-value setters of adt that change exactly that field"""
+    import re as _re
+    from common import delta_fields
+    out = {}
+    for m in F.methods(adt=adt, inherent_only=True):
+        if not str(m.j.get('vis')).startswith('Public') or len(m.j.get('inputs') or []) != 2 or (m.j.get('output') or {}).get('adt') != adt:
+            continue
+        d = delta_fields(prov.prov_of(m).return_value(), 1)
+        if d is None or set(d) != {field}:
+            continue
+        v = prov.inline_all(F, d[field], depth=2, _seen=(m.path,), only=lambda f_: not f_.get('trait'))      # a private normalising helper is read through
+        txt = prov.show(prov.strip(v, names=set()), maxdepth=10)
+        out[m.name] = _re.sub(r'(osu|taiko|catch|mania)::', 'M::', txt)
+    return out
+
+
+def r5_same_representation(ctx, F):
+    """A field that TryFrom<OsuPerformance> copies across verbatim must mean the same in both builders: the setters that fill it store the same function of
+    their argument (an accuracy kept as a fraction by one builder and in percent by the other survives every single-builder test and is wrong after try_mode)"""
+    OSU_PERF = 'osu::performance::OsuPerformance'
+    n = 0
+    for mode in ('taiko', 'catch', 'mania'):
+        adt = '%s::performance::%sPerformance' % (mode, CAP[mode])
+        for tf, sf in R5_TABLE[mode].items():
+            if sf is None or tf in ('difficulty',):
+                continue
+            a, b = _setter_store(F, OSU_PERF, sf), _setter_store(F, adt, tf)
+            if not a or not b:
+                continue                # a field without a dedicated one-field setter (filled through state(..) only)
+            n += 1
+            va, vb = set(a.values()), set(b.values())
+            ctx.require(va == vb, 'C07-R5', '%s:%s:representation' % (mode, tf), 'osu.%s and %s.%s are filled alike by their setters (%s)' % (sf, CAP[mode], tf, sorted(va)[0][:80]), (F.adts.get(adt) or {}).get('loc') and '%s:%s' % (F.adts[adt]['loc'][0], F.adts[adt]['loc'][1]),
+                        bad='the setters of osu.%s store `%s` but those of %sPerformance.%s store `%s`, and TryFrom<OsuPerformance> copies the field verbatim: a value set before try_mode(%s) '
+                            'means something else than the same value set afterwards' % (sf, sorted(va), CAP[mode], tf, sorted(vb), MODE_VARIANT[mode]))
+    ctx.floor('C07-R5', n, 9, 'forwarded fields with dedicated setters on both sides')
